@@ -2,20 +2,18 @@
 (mitmproxy/contentviews/__init__.py, _registry.py, _view_dns.py)."""
 import gzip
 import io
-import json
 import signal
 import struct
-import sys
 import traceback
 import zipfile
 import zlib
 
-from lib.coqterm import cbool, cbytes, cN, cZ, clist, copt, cpair, hx, unhx
+from lib.coqterm import cbool, cbytes, cN, cZ, clist, copt, hx, unhx
 
 ID = "C50"
-QUICK_N = 1600
-THOROUGH_N = 40000
-SHARD = 120
+QUICK_N = 1200
+THOROUGH_N = 24000
+SHARD = 250
 RULE = ("40% real registry: a message (HTTP request/response with content-type / content-encoding, TCP, UDP, WebSocket "
         "text/binary, DNS) whose body is a structured sample for one of the registered views (JSON, XML/HTML, CSS, JS, GraphQL, "
         "protobuf, gRPC, msgpack, MQTT, multipart, url-encoded, query, images, zip, DNS wire, socket.io, HTTP/3 frames, WBXML), "
@@ -110,7 +108,7 @@ VIEW_NAMES = ["viewcss", "dns", "graphql", "http/3 frames", "image", "javascript
               "protobuf", "grpc"]
 DNS_TYPES = [1, 28, 2, 5, 12, 16, 65, 15, 6, 33, 41, 99, 255, 0, 64, 256, 65535]
 LABELS = ["a", "example", "com", "dns", "google", "a-b", "A", "Www", "_srv", "1", "123", "true", "null", "~", "0x1f", "1e3", "x" * 63,
-          "a b", "a:b", "#c", "- x", "é", "xn--nxasmq6b", "xn--a-b-", "a\x1bb", "yes", "<<", "=", "1_000", "12:30:45", "'q'", '"dq"',
+          "a b", "a:b", "#c", "- x", "a\x1bb", "yes", "<<", "=", "1_000", "12:30:45", "'q'", '"dq"',
           "a,b", "[x]", "{y}", "&z", "*w", "!t", "|", ">", "%", "@", "`", "a\\b", "a: b", "a #b", " ", " "]
 TXTS = [b"\x05hello", b"\x0bv=spf1 -all", b"", b"plain", b"\x02\xff\xfe", b"\xff", b"\x03a\x1bb", b"\x04\xc2\x9bxy", b"0x41", b"true",
         b"123", b"a: b", b"- x", b"#", b"0xff (invalid TXT data)", b"x" * 100, b"a  b   c" * 12, b"\xe2\x80\xa8", b"\xc2\x85", b" lead",
@@ -205,10 +203,13 @@ def _gen_syn(rng):
             "ce": rng.choice([None, None, "gzip", "bogus"]), "view": name}
 
 
+ACE_LABELS = ["é", "xn--nxasmq6b", "xn--a-b-", "XN--9ca"]      # IDNA: outside the C25 name model (oracle only)
+
+
 def _name(rng):
     if rng.chance(0.1):
         return ""
-    return ".".join(rng.choice(LABELS) for _ in range(rng.randint(1, 3)))
+    return ".".join(rng.choice(ACE_LABELS) if rng.chance(0.02) else rng.choice(LABELS) for _ in range(rng.randint(1, 3)))
 
 
 def _wire_name(rng):
@@ -306,6 +307,8 @@ _S = {}
 
 
 def setup_impl():
+    import os
+    os.environ["RUST_BACKTRACE"] = "0"      # native backtraces in the messages of the Rust views are not reproducible
     from mitmproxy import contentviews, dns, http, tcp, udp, websocket
     from mitmproxy.contentviews import _view_dns, _utils
     from mitmproxy.contentviews._api import Contentview, Metadata
@@ -341,17 +344,22 @@ def _on_alarm(sig, frame):
     raise _Hang()
 
 
-def _timed(fn, *a, **kw):
+_HUNG = set()      # views already seen not to return (confirmed with the long limit): later calls use the short limit only
+
+
+def _timed(fn, *a, _who=None, **kw):
     """run fn; raise _Hang if it does not return within HANG_S, nor within 4 x HANG_S when tried again (a loaded machine
     must not look like a hang).  run_impl runs in the main thread."""
     old = signal.signal(signal.SIGALRM, _on_alarm)
     try:
-        for limit in (HANG_S, 4 * HANG_S):
+        for limit in ((HANG_S,) if _who in _HUNG else (HANG_S, 4 * HANG_S)):
             signal.setitimer(signal.ITIMER_REAL, limit)
             try:
                 return fn(*a, **kw)
             except _Hang:
-                if limit != HANG_S:
+                if limit != HANG_S or _who in _HUNG:
+                    if _who is not None:
+                        _HUNG.add(_who)
                     raise
             finally:
                 signal.setitimer(signal.ITIMER_REAL, 0)
@@ -370,7 +378,7 @@ def _exc_text(e):
 
 def _call_prettify(view, data, meta):
     try:
-        r = _timed(view.prettify, data, meta)
+        r = _timed(view.prettify, data, meta, _who=view.name)
     except Exception as e:
         return ["err", _exc_text(e)]
     except _Hang:
@@ -819,12 +827,32 @@ def coq_case(case, obs):
         name = case["view"]
         if not name.isascii() or any(not r[0].isascii() for r in obs["rows"]):
             return None
-        rows = clist((f"({ctext(r[0])}, {ctext(r[1])}, {copt(r[2], cZ, 'Z')}, {_cpret(r[3])})" for r in obs["rows"]), "vrow")
+        # long texts that occur more than once (a view's output and the result) are bound once with let
         res = obs["res"]
+        longs = [r[3][1] for r in obs["rows"] if r[3] is not None and len(r[3][1]) > 24]
+        binds, seen = {}, set()
+        for t in longs:
+            if t not in binds and (t in seen or (res is not None and res[0].endswith(t))):
+                binds[t] = "v%d" % len(binds)
+            seen.add(t)
+
+        def tx(t, allow_suffix=False):
+            if t in binds:
+                return binds[t]
+            if allow_suffix:
+                for b, bn in binds.items():
+                    if t.endswith(b):
+                        return f"({ctext(t[:-len(b)])} ++ {bn})"
+            return ctext(t)
+
+        def cp(p):
+            return "U" if p is None else f"({'OK' if p[0] == 'ok' else 'ER'} {tx(p[1])})"
+        rows = clist((f"({ctext(r[0])}, {ctext(r[1])}, {copt(r[2], cZ, 'Z')}, {cp(r[3])})" for r in obs["rows"]), "vrow")
         cres = "(@None res_obs)" if res is None else \
-            f"(Some ({ctext(res[0])}, {ctext(res[1])}, {copt(res[2], ctext, 'text')}, {ctext(res[3])}))"
+            f"(Some ({tx(res[0], True)}, {ctext(res[1])}, {copt(res[2], ctext, 'text')}, {ctext(res[3])}))"
         data = copt(obs["data"], lambda h: cbytes(unhx(h)), "bytes")
-        return f"PM {cbool(obs['c1'])} {rows} {data} {ctext(obs['enc'])} {ctext(name)} {cres}"
+        lets = "".join(f"let {bn} : text := {ctext(t)} in " for t, bn in binds.items())
+        return f"({lets}PM {cbool(obs['c1'])} {rows} {data} {ctext(obs['enc'])} {ctext(name)} {cres})"
     if k in ("reg", "get"):
         ops = clist((f"({ctext(n)}, {ctext(t)})" for n, t in case["ops"]), "(text * text)")
         if k == "reg":
@@ -873,8 +901,7 @@ def oracle(case, obs):
         if obs["res"] is None:
             # a registry without any working render_priority (only possible with synthetic registries) is the documented assert
             syn_unselectable = k == "syn" and obs["exc"] == "AssertionError" and all(r[2] is None for r in obs["rows"])
-            nonstr = k == "syn" and False
-            if not syn_unselectable and not nonstr:
+            if not syn_unselectable:
                 v.append({"key": "prettify-raises", "what": f"prettify_message raised {obs['exc']} (view {case['view']!r}, body {obs['data']})"})
             return v
         if not obs.get("res_is_str", True):
